@@ -21,3 +21,10 @@ def build(reg):
         trusted=["torch.where back-propagates through both branches (a zero denominator in the discarded branch "
                  "yields NaN gradients): this is why *every* denominator is required non-zero"],
     )
+
+
+# negative controls (thorough tier): (name, file, old text, new text)
+CONTROLS = [('divide by the raw secants (the repaired defect)',
+  'emu_base/math/pchip_torch.py',
+  '        torch.where(mask_same_sign, delta_l, ones),\n        torch.where(mask_same_sign, delta_r, ones),',
+  '        delta_l,\n        delta_r,')]
